@@ -662,6 +662,13 @@ func (this *Writer) processBlock() error {
 			nbTasks = min(nbTasks, this.nbInputBlocks)
 		}
 
+		// The input size is only a hint (and the block count derived from it is capped):
+		// never start fewer tasks than there are buffers filled by Write, otherwise the
+		// extra buffers would be left behind and overwritten.
+		if nbFilled := (this.available + this.blockSize - 1) / this.blockSize; nbTasks < nbFilled {
+			nbTasks = min(nbFilled, this.jobs)
+		}
+
 		jobsPerTask, _ = internal.ComputeJobsPerTask(make([]uint, nbTasks), uint(this.jobs), uint(nbTasks))
 	} else {
 		jobsPerTask = []uint{uint(this.jobs)}
